@@ -27,6 +27,14 @@ from . import gm
 from .copsuite import pool_map
 
 
+def freeze(*arrs):
+    """caller-owned arrays are made read-only: any in-place write raises instead of going unnoticed
+    when it happens not to change a value"""
+    for a in arrs:
+        if isinstance(a, np.ndarray):
+            a.flags.writeable = False
+
+
 def snap(x):
     if isinstance(x, np.ndarray):
         return ('nd', x.shape, list(x.flat))
@@ -72,6 +80,7 @@ def ep_bisect(ctx):
         ctx.assume(a.t <= b.t)
     f = make_f(ctx, (0, 1), calls)
     xmin, xmax = objarr(lo), objarr(hi)
+    freeze(xmin, xmax)
     args = {'xmin': xmin, 'xmax': xmax}
     before = {k: snap(v) for k, v in args.items()}
     with patched(O, np=Shim18(havoc_empty=False, force_obj=True)):
@@ -87,6 +96,7 @@ def ep_chandrupatla(ctx):
     ctx.notes['lanes'] = (0,)
     f = make_f(ctx, (0,), calls)
     xmin, xmax = objarr(lo), objarr(hi)
+    freeze(xmin, xmax)
     args = {'xmin': xmin, 'xmax': xmax}
     before = {k: snap(v) for k, v in args.items()}
     with patched(O, np=Shim18(havoc_empty=False, force_obj=True)):
@@ -121,9 +131,10 @@ def ep_gm_density(kind):
         m = gm.fitted_model(cols, df)
         xs = symarr('x', 2, 3)
         if kind == 'frame':
-            X = pd.DataFrame(xs.copy(), columns=['b', 'c', 'a'])
+            X = pd.DataFrame(xs.copy(), columns=['b', 'c', 'a'], index=[7, 3])
         elif kind == 'array':
             X = xs.copy()
+            freeze(X)
         else:
             X = pd.Series(xs[0].copy(), index=cols)
         args = {'X': X}
@@ -138,7 +149,7 @@ def ep_gm_density(kind):
 def ep_gm_fit(ctx):
     cols = ['c', 'a']
     xs = symarr('x', 2, 2)
-    X = pd.DataFrame(xs.copy(), columns=cols)
+    X = pd.DataFrame(xs.copy(), columns=cols, index=[12, 5])
     cfg = {'c': gm.StubDist}
     args = {'X': X, 'distribution': cfg}
     before = {k: snap(v) for k, v in args.items()}
@@ -162,6 +173,7 @@ def ep_bivariate(fam, method):
         xs = symarr('u', 2, 2)
         for x in xs.flat:
             ctx.assume(x.t > 0, x.t < 1)
+        freeze(xs)
         c = mk(cls, TH)
         args = {'X': xs}
         before = {k: snap(v) for k, v in args.items()}
@@ -184,6 +196,7 @@ def ep_bivariate_fit(fam):
         from .c10 import FAMS, patches
         from . import stubs
         X = symarr('x', 2, 2)
+        freeze(X)
         args = {'X': X}
         before = {k: snap(v) for k, v in args.items()}
         with patches(stubs.KendallStub()):
@@ -238,9 +251,9 @@ def ep_visual(which, with_columns):
     def fn(ctx):
         dim = 3 if '3d' in which else 2
         names = ['p', 'q', 'r', 's'][:dim + 1]
-        real = pd.DataFrame(symarr('r', 2, dim + 1), columns=names)
-        synth = pd.DataFrame(symarr('s', 2, dim + 1), columns=names)
-        cols = list(names[1:dim + 1]) if with_columns else None
+        real = pd.DataFrame(symarr('r', 2, dim + 1), columns=names, index=[4, 9])
+        synth = pd.DataFrame(symarr('s', 2, dim + 1), columns=names, index=[9, 4])      # overlapping labels
+        cols = list(reversed(names[1:dim + 1])) if with_columns else None        # not in frame order
         px = PxRecorder()
         if which.startswith('compare'):
             args = {'real': real if with_columns else real[names[:dim]], 'synth': synth if with_columns else synth[names[:dim]], 'columns': cols}
@@ -336,6 +349,9 @@ def task(name):
                 raised.append('unsupported: ' + str(p.exc))
                 continue
             if p.status == 'exc':
+                if isinstance(p.exc, ValueError) and 'read-only' in str(p.exc):
+                    mutated.append('in-place write to a caller-owned array')
+                    continue
                 if isinstance(p.exc, (AssertionError,)) or (isinstance(p.exc, ValueError) and 'different signs' in str(p.exc)):
                     continue
                 raised.append(f'{type(p.exc).__name__}: {p.exc}')
@@ -468,7 +484,7 @@ def concrete_mutation(name):
         which = name.split('.')[1].split('(')[0]
         dim = 3 if '3d' in which else 2
         df = pd.DataFrame(np.arange(8.0).reshape(2, 4), columns=['p', 'q', 'r', 's'])
-        cols = ['q', 'r', 's'][:dim]
+        cols = list(reversed(['q', 'r', 's'][:dim]))
         before = list(cols)
         a, b = df.copy(), df.copy() + 10
         try:
@@ -478,6 +494,18 @@ def concrete_mutation(name):
                 VV.__dict__[which](a, columns=cols)
         except Exception as e:
             return True, f'{which} raises {type(e).__name__}: {e}'
+        fig = None
+        try:
+            fig = VV.__dict__[which](a.copy(), b.copy(), columns=list(cols)) if which.startswith('compare') else VV.__dict__[which](a.copy(), columns=list(cols))
+        except Exception:
+            pass
+        if fig is not None:
+            for tr in fig.data:
+                src = a if tr.name == 'Real' else b
+                for ax, c_ in zip(('x', 'y', 'z'), cols):
+                    got = np.asarray(getattr(tr, ax), dtype=float)
+                    if not np.array_equal(np.sort(got), np.sort(src[c_].to_numpy())):
+                        return True, f'{which}: trace {tr.name} axis {ax} does not show column {c_} of the given rows'
         if cols != before:
             return True, f'{which}: caller\'s columns list changed from {before} to {cols}'
         if not a.equals(df) or not b.equals(df + 10):
@@ -492,11 +520,25 @@ def concrete_mutation(name):
         return False, ''
     if name.startswith('optimize.'):
         algo = name.split('.')[1].split('(')[0]
-        lo, hi = np.array([0.0, -3.0]), np.array([4.0, 9.0])
-        lo0, hi0 = lo.copy(), hi.copy()
-        r1 = getattr(O, algo)(lambda x: x - np.array([1.5, 2.5]), lo, hi)
-        if not (np.array_equal(lo, lo0) and np.array_equal(hi, hi0)):
-            return True, f'{algo}: caller\'s xmin/xmax arrays changed to {lo}, {hi}'
+        for lo, hi in ((np.array([0.0, -3.0]), np.array([4.0, 9.0])), (np.array([-np.inf, -3.0]), np.array([4.0, np.inf]))):
+            lo0, hi0 = lo.copy(), hi.copy()
+            try:
+                with np.errstate(all='ignore'):
+                    getattr(O, algo)(lambda x: np.tanh(x - np.array([1.5, 2.5])), lo, hi, maxiter=5)
+            except Exception:
+                pass
+            if not (np.array_equal(lo, lo0) and np.array_equal(hi, hi0)):
+                return True, f'{algo}: caller\'s xmin/xmax arrays changed from {lo0},{hi0} to {lo}, {hi}'
+        return False, ''
+    if name.startswith('GaussianMultivariate.fit'):
+        from copulas.univariate import GaussianUnivariate
+        rs = np.random.RandomState(2)
+        X = pd.DataFrame(rs.normal(size=(30, 2)), columns=['c', 'a'], index=np.arange(100, 130))
+        X0 = X.copy()
+        cfg = {'c': GaussianUnivariate}
+        GaussianMultivariate(distribution=cfg).fit(X)
+        if not (X.equals(X0) and list(X.index) == list(X0.index) and list(cfg) == ['c']):
+            return True, 'GaussianMultivariate.fit changed the caller\'s DataFrame (values or index) or distribution dict'
         return False, ''
     return False, 'no concrete replay for this entry point'
 
